@@ -2059,9 +2059,11 @@ class SetTo(Action, HasDefaultDebugInfo):
     def debug_lookup(self, tag: DTAG):
         if tag == DTAG.NAME:
             if self.value_expr.is_literal():
-                return "set into {} {}".format(ProgramData.lookup(self.into_storage, DTAG.NAME), self.value_expr.get_literal_result())
-            else:
-                return "set into {}".format(ProgramData.lookup(self.into_storage, DTAG.NAME))
+                try:
+                    return "set into {} {}".format(ProgramData.lookup(self.into_storage, DTAG.NAME), self.value_expr.get_literal_result())
+                except (ArithmeticError, ValueError):
+                    pass # a constant expression that cannot be evaluated (1 / 0, 1 << -1): name the action without its value
+            return "set into {}".format(ProgramData.lookup(self.into_storage, DTAG.NAME))
         elif tag == DTAG.STRICT_TIMING_REASON:
             if not self.is_timing_strict():
                 return None
